@@ -16,8 +16,8 @@ CLAIMED = {
             "u64 or a placeholder and every target a label or a placeholder: the real Quil::to_quil / to_quil_or_debug of each instruction and of the program. The clauses about "
             "the serialized text parsing back to an equivalent program need the lexer and are NOT covered.",
             TRUST + "; round-trip clauses outside the claim; core::fmt is a library model", "5/C04, 9.1"),
-    "C12": ("Every expression tree of the quick space (18 393 trees: depth <= 2 with at most one compound operand per operator, plus both operands compound over a small inner "
-            "alphabet; literals 0, 1, 2; variables x, y; one memory cell) resp. depth <= 2 over the full alphabet (literals 0, 1, -1, 2, 0.5, pi; all five functions; both prefix "
+    "C12": ("Every expression tree of the quick space (about 20 000 trees: depth <= 2 with at most one compound operand per operator, plus both operands compound over a small inner "
+            "alphabet; literals 0, 1, 2; variables x, y; one memory cell; plus one operator with a small literal 2^-20, -(2^-20) or 1 + 2^-20 next to a non-literal operand) resp. depth <= 2 over the full alphabet (literals 0, 1, -1, 2, 0.5, pi; all five functions; both prefix "
             "operators): the real simplifier is executed on the tree and z3 decides, for ALL complex values of the variables and all real values of the memory cell on which the "
             "original has a finite value, that original and simplified form have the same value (exact arithmetic for + - * /, functions and ^ uninterpreted with the facts "
             "x^0 = 1, x^1 = x, 1^x = 1, 0^x = 0 for x != 0; Ackermann's reduction to pure nonlinear real arithmetic); no new names, no pi in the result. One known finding (0^e).",
@@ -89,13 +89,13 @@ CLAIMED = {
             TRUST + "; extern signatures are built natively once and converted", "5/C27"),
     "C01": ("All token slices of length <= L (quick 4, thorough 6) with every token variant and payload a solver variable, through the real token-level parser "
             "(parse_instructions, parse_expression, parse_memory_reference, parse_frame_identifier): no path may reach a panic, todo!, unreachable or a failed "
-            "overflow/bounds assertion. Candidates are rendered to text, checked to lex back to the same tokens (hook) and replayed through the public from_str.",
+            "overflow/bounds assertion; a program parse with nothing left over goes on through Program::new + add_instructions, as Program::from_str does. Candidates are rendered to text, checked to lex back to the same tokens (hook) and replayed through the public from_str.",
             TRUST + "; the lexer (characters to tokens) and error Display are outside the claim", "5/C01"),
     "C05": ("Every operand position (19 templates) with the literal token's value a 64-bit vector / finite double and the sign token ranging over all operators: "
             "the parsed operand equals s*v over the integers (z3 BV2Int) or exactly in IEEE binary64, or parsing fails.",
             TRUST + "; digit strings to token values (lexical) are outside the claim", "5/C05"),
-    "C06": ("Every name position (26 templates) with the identifier chosen by the solver from a 17-name mixed-case alphabet including reserved words: the name in the "
-            "parsed AST equals the token payload (reserved words in expressions excepted).",
+    "C06": ("Every name position (29 templates, three of them directly after a numeric literal) with the identifier chosen by the solver from an 18-name mixed-case alphabet including reserved words: the name in the "
+            "parsed AST equals the token payload (reserved words in expressions and the imaginary unit i after a number excepted).",
             TRUST + "; lex_identifier_raw is outside the claim", "5/C06"),
     "C28": ("All bodies of at most N instructions (quick 4, thorough 5) over 11 instruction kinds with solver-chosen label names, qubits and indices: "
             "the real `From<&Program> for ControlFlowGraph` is executed symbolically and the block partition, labels, terminators, offsets and the "
